@@ -232,7 +232,7 @@ def run(ctx):
 
 
 def _obs(r):
-    if "panic" in r or "crash" in r:
+    if "panic" in r or "crash" in r or "timeout" in r:
         return r
     lv = synlib.real_leaves(r)
     return {"text_ok": r.get("text_ok"), "leaves": lv[:60], "n_leaves": len(lv)}
